@@ -4,6 +4,11 @@ import checklib
 
 def decode(p):
     f = p.split(" ")
+    if f[0] == "LEX":
+        try:
+            return {"kind": "LEX (literal source through the lexer)", "source": bytes.fromhex(f[1]).decode("utf8", "replace")}
+        except Exception:
+            return p
     if f[0] in ("REC", "PAR"):
         try:
             return {"kind": f[0] + " (one literal node evaluated re-entrantly / by several goroutines)", "k": int(f[1]),
@@ -25,12 +30,15 @@ SPEC = dict(
           "1,+,space,x.cnt(1),x.cnt(2) (side-effect counter),'\\\\','\\u007b','\\u007d','é'} in the four literal forms, "
           "plus random longer ones; plus kinds REC (an embedded expression re-evaluates the SAME literal node with n-1, "
           "depth 1..4) and PAR (2..8 goroutines evaluate one literal node 300 times each with their own n); "
+          "plus kind LEX (literal sources over escape atoms in all four forms, also ill-formed ones, through the real lexer and "
+          "the lexer model: token kinds, string values after escape processing, raw / interpolating flag); "
           "compared: resulting string(s) and ordered side-effect log. "
           "Non-trivial = the literal contains at least one embedded expression (model's segmentation)."),
     exhaustive="all atom sequences up to the stated length in the interpolating double-quoted form",
     trusted_base=[
         "the table of replacement texts handed to the model is computed by the real parser/interpreter on each candidate expression evaluated alone",
-        "lexer (escape processing) is not part of this model: the model starts from the token value (C08/C18 cover the lexer)",
+        "lexer stage: the interpolation model starts from the token value; the token value itself is compared with the lexer model "
+        "(lean/Ecal/Model/Lexer.lean) by the LEX cases",
     ],
     assumptions=["embedded expressions of generated literals do not communicate through variables (the alphabet has no assignment)"],
     decode=decode,
